@@ -121,6 +121,19 @@ CHECKS = {
             dict(harness="C20_H2Sym", bounds="histories of 2 operations with an additional symbolic name"),
         ],
     },
+    "C16": {
+        "quick": [
+            dict(harness="C16_K2E2", cover=["matches", "empty", "malformed"], bounds="every 2-symbol relative pattern over {a . * ? [ ] \\ /} x working directory with 2 entries (name = 1 symbolic byte over {a . * b}, kind file/dir/dangling link, directories get one child)"),
+            dict(harness="C16_K3E2", cover=["matches", "empty"], bounds="every 3-symbol relative pattern over {a . * ? /} x 2 entries (names over {a . b})"),
+            dict(harness="C16_K3E3", cover=["matches", "empty", "malformed"], bounds="every 3-symbol relative pattern over {a . * ? [ ] \\ /} x 3 entries (names over {a . * b})"),
+        ],
+        "thorough": [
+            dict(harness="C16_K2E2", cover=["matches", "empty", "malformed"]),
+            dict(harness="C16_K3E2", cover=["matches", "empty"]),
+            dict(harness="C16_K3E3", cover=["matches", "empty", "malformed"]),
+            dict(harness="C16_K4E2", cover=["matches", "empty"], bounds="every 4-symbol relative pattern over {a . * ? /} x 2 entries"),
+        ],
+    },
     "C19": {
         "quick": [
             dict(harness="C19_Option", bounds="all 2^64 Option values"),
@@ -169,6 +182,8 @@ META = {
                 note="|s| <= 2 runes over D (3 ASCII runes thorough); IFS is 2 symbolic bytes; the file system is the engine's model with files that would match unquoted specials; user.Lookup is a stub"),
     "C20": dict(text="Inductive-style stepping of ExecEnv against a map model: after every operation of every history within the bound, Get of every name of the universe and the Walk set agree with the model; specials/positionals reflect Args; Args/Opts/Aliases/AST unchanged. " + BOUNDED,
                 note="histories <= 2 (quick) / 3 (thorough) operations over {Set, Unset, ${n:=w}, ${n:?w}, Eval n=k, Eval n++, plain expansion} x 11 names (+1 symbolic name); os.Environ is an empty stub; $$ is not compared"),
+    "C16": dict(text="Glob against a symbolic in-memory file system (names are symbolic bytes, kinds enumerated) returns exactly the paths a reference walker with the C12 reference matcher computes: existence, no duplicates, ascending order, dot-file rule, directories only before a slash, escapes literal, relative results. " + BOUNDED,
+                note="the OS is replaced by the fsmodel package behind os.Lstat/os.Stat/os.Open/Readdirnames (replay materialises the tree on disk and runs the real Glob); trees have one level plus one child per directory, names are 1 byte; absolute patterns and a trailing lone backslash are outside the claim; '.' and '..' are taken to be present in every directory"),
     "C19": dict(text="No panic / non-termination of Pos, End, Fprint (symbolic Config), Expand (symbolic ExpMode and Option), Eval, Match, Glob and Option.String on every feasible path within the bounds; errors are of the documented kinds. " + BOUNDED,
                 note="ASTs come from the parser on bounded inputs (hand-built ASTs are outside); Glob runs against the engine's empty file-system stub; regexp.Compile/regexp matching run natively on concretised patterns/subjects; user.Lookup is a stub that always fails"),
 }
